@@ -8,6 +8,7 @@ CONSTANTS
   HkSet = {FALSE}
   CondSet <- NoCondSet
   CSet = {0}
+  ModeKinds = {"none"}
 INVARIANT CallbackOnce
 INVARIANT CallbackAfterAll
 INVARIANT NoOverlap
